@@ -1,7 +1,7 @@
 (** Correspondence judge for C05: compares what the Go code returned (recorded in the case by the harness)
     with the faithful model (tie flags) and with the specification (property flags). *)
 From Coq Require Import ZArith QArith Qround List Bool Arith.
-From CV Require Import Base.Dy Dash.DashPhase.
+From CV Require Import Base.Dy Dash.DashPhase Geom.Matrix Geom.Bezier Split.Cert.
 Import ListNotations.
 Open Scope Q_scope.
 
@@ -189,7 +189,34 @@ Definition judge_k2 (c : k2case) : list Z :=
   if c_panic c then [32%Z; 0%Z; 0%Z] else flat_map (judge_sub c) (c_subs c).
 
 (* ============================================================================================== *)
-Inductive case05 := K1 (h : Q) (c : k1case) | K2 (c : k2case).
+(** * K3: Path.Dash on one quadratic / cubic Bézier — CHECKED, NOT PROVED for the lengths (the 1 % is the code's documented
+      quadrature accuracy); the sub-curve relation of every piece is certified by Split.Cert.sub_ok (sound by
+      SplitProofs.sub_ok_sound_cubic and sub_ok_sound_quad). *)
+Record k3case := mkK3 { e_eps : Q; e_off : Q; e_d : list Q; e_slack : Q; e_in : list qpt; e_len : Q;
+                        e_pieces : list (list qpt * Q * Q); e_panic : bool }.
+
+Fixpoint ordered (prev : Q) (l : list (list qpt * Q * Q)) : bool :=
+  match l with [] => true | (_, s, u) :: r => Qle_bool prev s && Qle_bool s u && ordered u r end.
+
+(** flags: 1 PROP a piece is not a sub-curve of the input, 2 PROP pieces out of order / overlapping,
+    4 PROP number of pieces differs from the pattern, 8 PROP a piece length differs from the pattern by more than the
+    enclosure +- 1 % of the path length, 32 PROP panic.  Output [flags; #pieces; 0] *)
+Definition judge_k3 (c : k3case) : list Z :=
+  if e_panic c then [32%Z; 0%Z; 0%Z] else
+  let L := e_len c in
+  let spec := drawn_intervals (e_d c) (e_off c) L in
+  let tol := e_slack c + L * (1 # 100) in
+  let cert := forallb (fun x => let '(ctrl, s, u) := x in sub_ok (e_slack c) (e_in c) ctrl s u) (e_pieces c) in
+  let ord := ordered 0 (e_pieces c) in
+  let cnt := (length spec =? length (e_pieces c))%nat in
+  let lens := forallb (fun xy => let '((ctrl, _, _), (a, b)) := xy in
+                         Qle_bool (len_lo 40 16 ctrl - tol) (b - a) && Qle_bool (b - a) (len_hi 40 16 ctrl + tol))
+                      (combine (e_pieces c) spec) in
+  [ (bit (negb cert) 1 + bit (negb ord) 2 + bit (negb cnt) 4 + bit (cnt && negb lens) 8)%Z;
+    Z.of_nat (length (e_pieces c)); 0%Z ].
+
+(* ============================================================================================== *)
+Inductive case05 := K1 (h : Q) (c : k1case) | K2 (c : k2case) | K3 (c : k3case).
 
 Definition judge (c : case05) : list Z :=
-  match c with K1 h k => judge_k1 h k | K2 k => judge_k2 k end.
+  match c with K1 h k => judge_k1 h k | K2 k => judge_k2 k | K3 k => judge_k3 k end.
